@@ -113,7 +113,10 @@ class Engine:
         s.add(*self.pc)
         s.add(cond)
         self._feas_solver_calls += 1
-        r = s.check()
+        try:
+            r = s.check()
+        except z3.Z3Exception:
+            return True          # cannot tell: keep the path (sound: more paths, never fewer)
         return r != z3.unsat
 
     def choose(self, conds):
